@@ -16,8 +16,11 @@
 EXTENDS JaqalExec, Json, IOUtils
 Cases == JsonDeserialize(IOEnv.CASES)
 
-Tree(c) == ExecTree(c.inp, <<>>)
-NQ(c) == LET t == RegTabOf(c.inp, <<>>)
+\* site "run_ovr": the program is executed after let substitution under an override dictionary (C03: "let values and
+\* overrides applied"); every other site runs the program as written
+Ovr(c) == IF "ovr" \in DOMAIN c THEN c.ovr ELSE <<>>
+Tree(c) == ExecTree(c.inp, Ovr(c))
+NQ(c) == LET t == RegTabOf(c.inp, Ovr(c))
              fs == { r \in DOMAIN t : t[r].ok /\ r \in FundNames(c.inp) }
          IN IF fs = {} THEN 0 ELSE Len(t[CHOOSE r \in fs : TRUE].elems)
 AllQ(c) == 0..(NQ(c) - 1)
@@ -27,7 +30,7 @@ CountsOK(m) ==      \* every loop count is a non-negative integer
                  [] x.k \in {"S", "P"} -> \A j \in DOMAIN x.c : Ck(x.c[j])
                  [] OTHER -> TRUE
   IN Ck(m)
-ValidProg(c) == ValidIn(c.inp, <<>>) /\ CountsOK(Tree(c))
+ValidProg(c) == ValidIn(c.inp, Ovr(c)) /\ CountsOK(Tree(c))
 
 \* the subcircuit sequence the spec expects: for each pair, its gates (first visit) and its final state
 ExpectedState(c, k) == LET sg == SubGates(Tree(c), k) IN
@@ -64,7 +67,7 @@ Clauses2(c) ==
       ok == o.cls = "ok"
       vis == VisitsOf(tree)
       shouldRun == disc.accept /\ ~ovl
-      xs == c.site \in {"run", "outparse"}
+      xs == c.site \in {"run", "outparse", "run_ovr"}
   IN
   \* ---- C16-ish: only JaqalError may escape, and the call terminates
   F("terminates", xs /\ o.cls = "timeout")
@@ -86,7 +89,7 @@ Clauses2(c) ==
                                       o.subs[k].freq[v + 1] # Count(o.subs[k].readouts, v))
         ELSE {})
   \* ---- C03 (subcircuits that are visited at least once)
-  \cup (IF c.site = "run" /\ valid /\ shouldRun /\ ok /\ Len(o.subs) = Len(disc.pairs)
+  \cup (IF c.site \in {"run", "run_ovr"} /\ valid /\ shouldRun /\ ok /\ Len(o.subs) = Len(disc.pairs)
         THEN UNION { LET ex == ExpectedState(c, k) IN
                      IF ~ex.visited THEN {}
                      ELSE F("exact_repr", ~o.subs[k].exact)
